@@ -553,7 +553,10 @@ def generate(prop, run_seed, tier='quick', tolerate=frozenset()):
            'pclasses': pclasses, 'controllers': controllers}
     forms = ['function', 'method', 'descriptor']
     ops = []
-    n = min(60, 4 + int(crng.expovariate(1 / 14)))
+    deep = tier == 'thorough'
+    n = min(160 if deep else 60,
+            4 + int(crng.expovariate(1 / (28 if deep and crng.random() < .5
+                                          else 14))))
     nslots = crng.randint(1, 4)
     kinds = ['create', 'add', 'remove', 'query', 'delete', 'pref',
              'process', 'toggle', 'upd', 'proto', 'adopt']
